@@ -94,6 +94,8 @@ def run(P, rep, tier):
     r131(W, engs, rep)
     r132(W, engs, rep)
     r133(W, engs, rep)
+    r133k(W, rep)
+    r134(P, W, engs, rep)
     r136(W, engs, rep)
     r137(P, rep)
 
@@ -381,7 +383,13 @@ def r133(W, engs, rep):
             if c != 'error' or not node.args() or not (node.args()[0].str_value() or '').startswith('internal error'):
                 continue
             cands = [(p, fct) for p, fct in S.vs.items() if fct[0] == 'notin' and all(isinstance(x, int) for x in fct[1])]
-            cands = [(p, fct) for p, fct in cands if p.endswith('->size') or ('@' in p and p.split('@', 1)[1] in e.param_idx)]
+            res = []
+            for p, fct in cands:
+                if p.endswith('->size') or ('@' in p and p.split('@', 1)[1] in e.param_idx):
+                    res.append((p, fct))
+                elif S.ali.get(p, '').endswith('->size'):      # a local copy of some type's size
+                    res.append((S.ali[p], fct))
+            cands = res
             if len(cands) != 1:
                 continue
             p, fct = cands[0]
@@ -470,6 +478,243 @@ def r133(W, engs, rep):
 
 
 # --------------------------------------------------------------------------------------------
+def r133k(W, rep):
+    """keyword dispatch: every keyword that lets the declaration-specifier loop run has a branch in it"""
+    u = W.units['parse.c']
+    it = u.functions.get('is_typename')
+    if it is None:
+        raise AnalysisBroken('parse.c:is_typename vanished')
+    kws = set()
+    for d in it.find('VarDecl'):
+        for il in d.find('InitListExpr'):
+            vals = [c.str_value() for c in il.inner]
+            if vals and all(v is not None for v in vals):
+                kws |= set(vals)
+    if len(kws) < 10:
+        rep.undecided('R13.3', 'parse.c:is_typename:keyword-table', 'the type keyword table of is_typename() is not recognised any more (%d strings)' % len(kws))
+        return
+    hosts = []
+    for f, fd in u.functions.items():
+        for loop in fd.find('WhileStmt') + fd.find('ForStmt'):
+            cond = loop.inner[0] if loop.kind == 'WhileStmt' else None
+            if cond is None or not cond.calls('is_typename'):
+                continue
+            ie = [c for c in loop.calls('error') if c.args() and (c.args()[0].str_value() or '').startswith('internal error')]
+            if ie:
+                hosts.append((f, loop, ie[0]))
+    if not hosts:
+        rep.undecided('R13.3', 'parse.c:declspec:keyword-dispatch', 'no `while (is_typename(tok))` loop ending in unreachable() found (declspec changed shape)')
+        return
+    for f, loop, ie in hosts:
+        handled = set()
+        for c in loop.calls(('equal', 'consume')):
+            a = c.args()
+            v = a[-1].str_value() if a else None
+            if v is not None:
+                handled.add(v)
+        for k in sorted(kws):
+            rep.ob('R13.3', 'parse.c:%s:keyword("%s")' % (f, k), k in handled,
+                   'is_typename() accepts the keyword `%s`, so the specifier loop of %s() is entered for it, but no branch of the loop compares the token with "%s": '
+                   'the keyword chain falls into unreachable() and a valid declaration is answered with "internal error"' % (k, f, k),
+                   where='parse.c:%d' % ie.line)
+
+
+# --------------------------------------------------------------------------------------------
+def _canon(n):
+    """rendering of an expression that does not depend on the names of locals/parameters"""
+    k = n.kind
+    if k in ('ParenExpr', 'ImplicitCastExpr', 'ConstantExpr', 'CStyleCastExpr'):
+        return _canon(n.inner[-1])
+    if k == 'DeclRefExpr':
+        if n.ref_kind in ('VarDecl', 'ParmVarDecl') and n.ref_id not in n.unit.by_id:
+            return '(%s)' % (n.type or '?').replace(' ', '')
+        return n.ref_name or '?'
+    if k == 'MemberExpr':
+        return _canon(n.inner[0]) + ('->' if n.d.get('isArrow') else '.') + (n.name or '?')
+    if k in ('IntegerLiteral', 'CharacterLiteral'):
+        return str(n.value)
+    if k == 'UnaryOperator':
+        return n.opcode + _canon(n.inner[0])
+    if k == 'BinaryOperator':
+        op = {'||': '_or_', '&&': '_and_', '|': '_bitor_'}.get(n.opcode, n.opcode)
+        return '%s%s%s' % (_canon(n.inner[0]), op, _canon(n.inner[1]))
+    if k == 'CallExpr':
+        return '%s(%s)' % (n.callee() or '?', ','.join(_canon(a) for a in n.args()))
+    return n.src().replace(' ', '').replace('|', '!')
+
+
+def _assert_cond(call):
+    """condition expression of the assert() whose expansion contains this __assert_fail call"""
+    p = call.parent
+    c = call
+    while p is not None and p.kind in ('ParenExpr', 'ImplicitCastExpr', 'CStyleCastExpr'):
+        c, p = p, p.parent
+    if p is not None and p.kind == 'ConditionalOperator' and p.inner[2] is c:
+        return p.inner[0], True
+    if p is not None and p.kind == 'IfStmt':
+        return p.inner[0], (len(p.inner) > 2 and p.inner[2] is c)
+    if p is not None and p.kind == 'CompoundStmt' and p.parent is not None and p.parent.kind == 'IfStmt':
+        q = p.parent
+        return q.inner[0], (len(q.inner) > 2 and q.inner[2] is p)
+    return None, None
+
+
+def _witness_types(P, cu):
+    from ..interp import Obj
+    E = cu.enums
+    tf = [f for f, t, b in (cu.records.get('Type') or [])]
+    mf = [f for f, t, b in (cu.records.get('Member') or [])]
+    if not tf or not mf or 'members' not in tf or 'size' not in tf:
+        raise AnalysisBroken('struct Type/Member fields not recognised')
+
+    def T(kind, size, align, **kw):
+        f = {x: 0 for x in tf}
+        f.update({'kind': E[kind], 'size': size, 'align': align})
+        f.update(kw)
+        return Obj('Type', fields=f)
+
+    def S(members, size, align, kind='TY_STRUCT'):
+        nxt = 0
+        for ty, off in reversed(members):
+            f = {x: 0 for x in mf}
+            f.update({'ty': ty, 'offset': off, 'next': nxt, 'align': ty.fields['align']})
+            nxt = Obj('Member', fields=f)
+        return T(kind, size, align, members=nxt)
+    fl, db, ch, it_ = T('TY_FLOAT', 4, 4), T('TY_DOUBLE', 8, 8), T('TY_CHAR', 1, 1), T('TY_INT', 4, 4)
+    ld = T('TY_LDOUBLE', 16, 16)
+    arr = lambda b, n: T('TY_ARRAY', b.fields['size'] * n, b.fields['align'], base=b, array_len=n)
+    W = [('struct{}', S([], 0, 1)), ('union{}', S([], 0, 1, 'TY_UNION')), ('struct{float[0]}', S([(arr(fl, 0), 0)], 0, 4)),
+         ('struct{struct{}}', S([(S([], 0, 1), 0)], 0, 1)),
+         ('struct{char}', S([(ch, 0)], 1, 1)), ('struct{char[3]}', S([(arr(ch, 3), 0)], 3, 1)), ('struct{float}', S([(fl, 0)], 4, 4)),
+         ('struct{int}', S([(it_, 0)], 4, 4)), ('struct{char[5]}', S([(arr(ch, 5), 0)], 5, 1)), ('struct{double}', S([(db, 0)], 8, 8)),
+         ('struct{float,float}', S([(fl, 0), (fl, 4)], 8, 4)), ('struct{int,float}', S([(it_, 0), (fl, 4)], 8, 4)),
+         ('union{float,double}', S([(fl, 0), (db, 0)], 8, 8, 'TY_UNION')), ('union{float,char[3]}', S([(fl, 0), (arr(ch, 3), 0)], 4, 4, 'TY_UNION')),
+         ('struct{char[9]}', S([(arr(ch, 9), 0)], 9, 1)), ('struct{float[3]}', S([(arr(fl, 3), 0)], 12, 4)),
+         ('struct{double,float}', S([(db, 0), (fl, 8)], 16, 8)), ('struct{double,int}', S([(db, 0), (it_, 8)], 16, 8)),
+         ('struct{long,float}', S([(T('TY_LONG', 8, 8), 0), (fl, 8)], 16, 8)), ('struct{double,double}', S([(db, 0), (db, 8)], 16, 8)),
+         ('struct{float[4]}', S([(arr(fl, 4), 0)], 16, 4)), ('struct{char[16]}', S([(arr(ch, 16), 0)], 16, 1)), ('struct{long double}', S([(ld, 0)], 16, 16)),
+         ('struct{double,struct{}}', S([(db, 0), (S([], 0, 1), 8)], 8, 8))]
+    return W, T
+
+
+def r134(P, W, engs, rep):
+    rep.rule('R13.4', 'assertions of non-test code cannot fail: either the dominating guard facts make the failing branch unreachable, or (struct-return helpers of the '
+                      'code generator) the asserting function, interpreted on a witness catalogue of aggregates of at most 16 bytes, never reaches __assert_fail', floor=4)
+    sites = []
+    for (un, f), e in sorted(engs.items()):
+        if f.endswith('_test'):
+            continue
+        for c in e.fd.calls('__assert_fail'):
+            sites.append((un, f, e, c))
+    if not sites:
+        rep.undecided('R13.4', 'asserts', 'no assert() found in non-test code (assert.h expansion not recognised)')
+        return
+    notjudged = []
+    witness_fns = {}
+    for un, f, e, call in sites:
+        cond, neg = _assert_cond(call)
+        cs = _canon(cond) if cond is not None else 'line'
+        key = '%s:%s:assert(%s)' % (un, f, cs)
+        reach = [S for n, c, S, v in e.calls if n is call]
+        if not reach:
+            rep.ob('R13.4', key, True, '', where='%s:%d' % (un, call.line))
+            continue
+        # a value-set fact on the asserted path that contradicts `path == CONST`
+        done = False
+        if cond is not None:
+            m = cond.strip()
+            if m.kind == 'BinaryOperator' and m.opcode == '==':
+                a, b = m.inner[0].strip(), m.inner[1].strip()
+                if b.kind == 'DeclRefExpr' and b.ref_kind == 'EnumConstantDecl' and a.kind == 'DeclRefExpr':
+                    p = e.root_path(a)
+                    bad = set()
+                    for S in reach:
+                        fct = S.vs.get(p)
+                        if fct and fct[0] == 'in' and all(isinstance(x, str) for x in fct[1]):
+                            bad |= set(fct[1])
+                        else:
+                            bad = None
+                            break
+                    if bad:
+                        rep.ob('R13.4', key + '<-' + ','.join(sorted(bad)), False,
+                               '%s() asserts `%s`, but the guards before it let the value%s %s through (these values are produced by the functions/stores that feed it): '
+                               'the assertion aborts the process (SIGABRT) instead of a diagnostic' % (f, cond.src(), 's' if len(bad) > 1 else '', ', '.join(sorted(bad))),
+                               where='%s:%d' % (un, call.line), facts={'values': sorted(bad)})
+                        done = True
+        if done:
+            continue
+        if un == 'codegen.c':
+            witness_fns.setdefault(f, []).append((call, key, cond))
+        else:
+            notjudged.append(key)
+    # witness interpretation of the code generator's asserting helpers
+    if witness_fns:
+        from ..interp import Interp, Obj, Unsupported
+        cu = W.units['codegen.c']
+        wl, T = _witness_types(P, cu)
+        of = [x for x, t, b in (cu.records.get('Obj') or [])]
+        for f, lst in sorted(witness_fns.items()):
+            params = cu.params(f)
+            ptypes = [(p.type or '').replace(' ', '') for p in params]
+            uses_current_fn = any(n.kind == 'DeclRefExpr' and n.ref_name == 'current_fn' for n in cu.fn(f).walk())
+            # only helpers whose asserted type is the function's return type (no parameter) or the type of the one Obj parameter
+            ok_shape = (ptypes == [] and uses_current_fn) or ptypes == ['Obj*']
+            if ok_shape:
+                for call, key, cond in lst:
+                    roots = [n for n in (cond.walk() if cond is not None else []) if n.kind == 'DeclRefExpr' and n.ref_kind == 'VarDecl' and n.ref_id not in cu.by_id]
+                    good = bool(roots)
+                    for r in roots:
+                        decl = [d for d in cu.fn(f).find('VarDecl') if d.id == r.ref_id]
+                        init = decl[0].inner[-1].strip() if decl and 'init' in decl[0].d and decl[0].inner else None
+                        if init is None or init.kind != 'MemberExpr':
+                            good = False
+                            continue
+                        b = init.inner[0].strip()
+                        if ptypes == ['Obj*']:
+                            good = good and init.name == 'ty' and b.kind == 'DeclRefExpr' and b.ref_kind == 'ParmVarDecl'
+                        else:
+                            good = good and _canon(init) == 'current_fn->ty->return_ty'
+                    ok_shape = ok_shape and good
+            if not ok_shape:
+                notjudged += [k for c, k, cd in lst]
+                continue
+            fails = {}     # line of the failing assert -> [witness names]
+            try:
+                for name, w in wl:
+                    if ptypes == []:
+                        fo = {x: 0 for x in of}
+                        fo.update({'ty': T('TY_FUNC', 1, 1, return_ty=w)})
+                        it = Interp(P, cu, {'opaque': ['println'], 'rec_limit': 12, 'globals': {'current_fn': Obj('Obj', fields=fo)}})
+                        res = it.explore(f, lambda ctx: [])
+                    else:
+                        fo = {x: 0 for x in of}
+                        fo.update({'ty': w, 'offset': -16})
+                        var = Obj('Obj', fields=fo)
+                        it = Interp(P, cu, {'opaque': ['println'], 'rec_limit': 12})
+                        res = it.explore(f, lambda ctx: [var])
+                    if not res:
+                        raise AnalysisBroken('no path of %s() could be interpreted for the witness %s' % (f, name))
+                    for ctx, out in res:
+                        if out[0] == 'noreturn' and out[1] == '__assert_fail':
+                            fails.setdefault(out[3], []).append(name)
+            except (Unsupported, AnalysisBroken) as ex:
+                for c, k, cd in lst:
+                    rep.undecided('R13.4', k, 'the asserting function cannot be interpreted on the witness types (%s)' % ex, where='codegen.c:%d' % c.line)
+                continue
+            for call, key, cond in lst:
+                bad = fails.get(call.line, [])
+                if bad:
+                    key2 = key + '<-' + ','.join(bad)
+                    rep.ob('R13.4', key2, False,
+                           '%s() asserts `%s` under a condition that is vacuously true for aggregates without (floating) members: for the return type %s the assertion fails '
+                           'and the compiler aborts (SIGABRT) instead of generating code' % (f, cond.src() if cond is not None else '?', ', '.join(bad)),
+                           where='codegen.c:%d' % call.line, facts={'failing_witnesses': bad, 'witnesses_tried': [n for n, w in wl]})
+                else:
+                    rep.ob('R13.4', key, True, '', where='codegen.c:%d' % call.line)
+    rep.extra['asserts_not_judged'] = sorted(set(notjudged))
+
+
+# --------------------------------------------------------------------------------------------
 def r136(W, engs, rep):
     """every error_tok/warn_tok call: the token argument is not a value that may be NULL"""
     obs = {}
@@ -546,6 +791,17 @@ def _ceval(n, env):
         return _wrap(f(), n.dtype or n.type or 'int')
     if k == 'ConditionalOperator':
         return _ceval(n.inner[1], env) if _ceval(n.inner[0], env) else _ceval(n.inner[2], env)
+    if k == 'CallExpr':
+        # a helper defined in the same unit whose body is a single `return expr;`
+        c = n.callee()
+        fd = n.unit.functions.get(c) if c else None
+        if fd is not None:
+            body = [x for x in fd.inner if x.kind == 'CompoundStmt']
+            params = [x for x in fd.inner if x.kind == 'ParmVarDecl']
+            if body and len(body[0].inner) == 1 and body[0].inner[0].kind == 'ReturnStmt' and body[0].inner[0].inner and len(params) == len(n.args()):
+                env2 = {p.id: _wrap(_ceval(a, env), p.dtype or p.type or 'int') for p, a in zip(params, n.args())}
+                return _wrap(_ceval(body[0].inner[0].inner[0], env2), (fd.type or 'int').split('(')[0].strip())
+        raise _Undecidable('call to %s()' % c)
     if k == 'StmtExpr':
         # glibc: __extension__ ({ union { int __in; ... } __u; __u.__in = (status); __u.__i; }) in old headers
         raise _Undecidable('statement expression')
